@@ -1,7 +1,9 @@
 (* A transcription of what cosmossdk.io/client/v2 autocli checks when it binds the module's AutoCLI options
    to the protobuf request messages at process start (flag/builder.go addMessageFlags, query.go, msg.go):
    an option must name an existing rpc method; every positional argument must name an existing field of the
-   request BY ITS PROTO NAME; `optional` and `varargs` only on the last positional argument.  On top of
+   request BY ITS PROTO NAME; `optional` and `varargs` only on the last positional argument.  autocli does NOT check
+   that a `varargs` argument binds a repeated field: on a single-valued field every further word overwrites the
+   previous one and all but the last are silently dropped, so that is required here.  On top of
    that, what the user relies on: the i-th word in the usage line names the field the i-th argument binds. *)
 From Coq Require Import String List Bool Ascii Arith.
 Import ListNotations.
@@ -66,6 +68,8 @@ Definition binds (svcs : list service) (msgs : list (string * list field)) (o : 
           skip ||
           (forallb (fun a => existsb (fun f => String.eqb (fst (fst f)) (fst (fst a))) fields) args
            && flags_ok args
+           && forallb (fun a => let '(n, _, var) := a in
+                                negb var || existsb (fun f => String.eqb (fst (fst f)) n && snd f) fields) args
            && nodup (map (fun a => fst (fst a)) args)
            && list_eqb (use_args use) (map (fun a => kebab (fst (fst a))) args)
            && negb (String.eqb use ""))
